@@ -50,10 +50,8 @@ def p_amps_of(ip, args, kw, ctx):
 
 
 def p_tenths(ip, args, kw, ctx):
-    v = args[0]
-    if not isz(v):
-        return z3.RealVal(v) / 10
-    return simp(z3.ToReal(v) / 10)
+    from .sym import Rat
+    return Rat(args[0], 10)
 
 
 def p_utf8(ip, args, kw, ctx):
@@ -148,6 +146,42 @@ def p_pairwise_distinct(ip, args, kw, ctx):
     return ip.conj(conj)
 
 
+def _le(n):
+    def prim(ip, args, kw, ctx):
+        from .sym import int_bytes
+        v = args[0]
+        if not isz(v):
+            return bytes([(v >> (8 * k)) & 255 for k in range(n)])
+        return Seq('bytes', [Elems(int_bytes(v, n))])
+    return prim
+
+
+def p_timestamp_of(ip, args, kw, ctx):
+    now = args[0]
+    r = models.b_round(ip, [now], {}, ctx)
+    return _le(4)(ip, [r], {}, ctx)
+
+
+def p_today_epoch(ip, args, kw, ctx):
+    from .timemodels import local_date
+    h, m = args
+    Y, M, D = local_date(ctx)
+    ctx.used_models.add("time.mktime: uninterpreted MKTIME(Y,M,D,h,m,s) (libc axiom L2: 0 <= MKTIME < 2^32 for 1970..2105); "
+                        "returned as a float with integral value")
+    t = models.MKTIME(zi(Y), zi(M), zi(D), zi(h), zi(m), z3.IntVal(0))
+    ctx.fact(z3.And(t >= 0, t < 2 ** 32))
+    return t
+
+
+def p_local_hhmm_of(ip, args, kw, ctx):
+    from .timemodels import hhmm_str
+    t = args[0]
+    ctx.used_models.add("time.localtime: uninterpreted LT_HOUR(t), LT_MIN(t) with 0<=h<24, 0<=m<60")
+    h, m = models.LT_HOUR(zi(t)), models.LT_MIN(zi(t))
+    ctx.fact(z3.And(h >= 0, h < 24, m >= 0, m < 60))
+    return hhmm_str(h, m, ctx)
+
+
 _DECODE_MEMO = {}
 
 
@@ -198,5 +232,5 @@ def install(ip):
     ip.spec_prims.update({
         "crc16": p_crc16, "is_hex": p_is_hex, "amps_of": p_amps_of, "tenths": p_tenths, "utf8": p_utf8,
         "valid_hhmm": p_valid_hhmm, "hh_of": p_hh_of, "mm_of": p_mm_of,
-        "chr_digit": p_chr_digit, "decode_padded_utf8": p_decode_padded_utf8, "day_bit": p_day_bit, "is_member": p_is_member, "pairwise_distinct": p_pairwise_distinct,
+        "le16": _le(2), "le32": _le(4), "chr_digit": p_chr_digit, "today_epoch": p_today_epoch, "local_hhmm_of": p_local_hhmm_of, "timestamp_of": p_timestamp_of, "decode_padded_utf8": p_decode_padded_utf8, "day_bit": p_day_bit, "is_member": p_is_member, "pairwise_distinct": p_pairwise_distinct,
     })
